@@ -38,6 +38,18 @@ class UserBaseExc(BaseException):
         self.eid = eid
 
 
+class Interrupt(BaseException):
+    """thrown in by the driver at a suspension point; a resilient awaitable catches it and carries on"""
+
+    def __init__(self, eid):
+        super().__init__(eid)
+        self.eid = eid
+
+
+SUSP_LOG = []        # user-side log of every suspension: ["susp", tok], ["reply", tok, reply], ["thrown-in", tok, eid]
+RESILIENT = [False]  # when set, awaitables survive an Interrupt thrown in (C17's throw transparency)
+
+
 class Susp:
     """Awaitable that suspends once with token `tok`; resumes with what the driver sends."""
 
@@ -48,7 +60,15 @@ class Susp:
         self.log = log
 
     def __await__(self):
-        reply = yield self.tok
+        SUSP_LOG.append(["susp", self.tok])
+        try:
+            reply = yield self.tok
+        except Interrupt as exc:
+            if not RESILIENT[0]:
+                raise
+            SUSP_LOG.append(["thrown-in", self.tok, exc.eid])
+            reply = yield ["retry", self.tok]
+        SUSP_LOG.append(["reply", self.tok, reply])
         if self.log is not None:
             self.log.append(("reply", self.tok, reply))
         return reply
